@@ -333,8 +333,10 @@ def ref_v1(name, tree, P, mode="plain"):
     for i, (rel, data) in enumerate(items):
         files.append({b"length": len(data), b"path": [u(c) for c in rel]})
         stream += data
-        if mode == "bep47" and i + 1 < len(items):
-            gap = (-len(stream)) % P
+        if mode in ("bep47", "bep47x2") and i + 1 < len(items):
+            # bep47x2: files aligned to a multiple of the piece length that is
+            # coarser than one piece (pad entries longer than the gap)
+            gap = (-len(stream)) % (P if mode == "bep47" else 2 * P)
             if gap:
                 files.append({b"attr": b"p", b"length": gap,
                               b"path": [b".pad", str(gap).encode()]})
